@@ -534,6 +534,7 @@ class Mir:
         self.path = path
         with open(path, encoding='utf-8', errors='replace') as f:
             self.lines = f.read().split('\n')
+        self.all = {}        # header name -> [(start, end), ...] every body with that name
         self.index = {}      # header name -> (start, end)
         self.headers = {}    # header name -> header line
         self._cache = {}
@@ -546,7 +547,8 @@ class Mir:
                 while j < n and self.lines[j] != '}':
                     j += 1
                 name = self._header_name(ln)
-                # CTFE duplicates: keep the first (runtime MIR)
+                # CTFE duplicates: keep the first (runtime MIR); macro-generated impls can share one name: all kept in .all
+                self.all.setdefault(name, []).append((i, j))
                 if name not in self.index:
                     self.index[name] = (i, j)
                     self.headers[name] = ln
@@ -609,6 +611,10 @@ class Mir:
         fn = self._parse_fn(name, s, e)
         self._cache[name] = fn
         return fn
+
+    def get_all(self, name):
+        """every body printed under this name (macro-generated impls share the span in their name)"""
+        return [self._parse_fn(name, s, e) for (s, e) in self.all.get(name, [])]
 
     def _parse_fn(self, name, s, e):
         fn = Fn()
